@@ -555,16 +555,16 @@ def keyset(n):
     return "{" + ", ".join(str(i) for i in range(1, n + 1)) + "}"
 
 
-def map_collide_stage(rep, tcfg, what, prefix, limit, nkeys, fraction):
-    consts = {"EmitEdges": "TRUE", "Limit": limit, "Keys": keyset(nkeys)}
+def map_collide_stage(rep, tcfg, what, prefix, limit, nkeys, fraction, ksz=3, vsizes="{12, 40}"):
+    consts = {"EmitEdges": "TRUE", "Limit": limit, "Keys": keyset(nkeys), "KSz": ksz, "VSizes": vsizes}
     sel = (lambda ops, key: frac(key + rep.seed, fraction[0], fraction[1])) if fraction else None
-    name = "%s-mc-l%d" % (prefix, limit)
+    name = "%s-mc-l%d-k%d" % (prefix, limit, ksz)
     files, n, total = model_histories(rep, "MC_Map.tla", "MC_Map.cfg", consts,
-                                      "MC_Map %d keys, all digest assignments over {0,1}^4, values {12,40}, limit %d" % (nkeys, limit),
+                                      "MC_Map %d keys of %d bytes, all digest assignments over {0,1}^4, values %s, limit %d" % (nkeys, ksz, vsizes, limit),
                                       {"cfg": {"T": 256, "limit": limit}}, sel, name)
     base = len(rep.distinct)
     rep.distinct.update(range(base, base + n))
-    st = "%s-collide-l%d" % (prefix, limit)
+    st = "%s-collide-l%d-k%d" % (prefix, limit, ksz)
     hist_stage(rep, st, ["map-run"], "map", "MapTrace.tla", tcfg, files, "edge", what)
     rep.stages[st]["selected_of_distinct_histories"] = [n, total]
     return fraction is None
@@ -581,6 +581,19 @@ def map_walk_stage(rep, tcfg, what, prefix, T, nkeys, mode, ksz, vsizes, maxel, 
     hist_stage(rep, nm, ["map-run"], "map", "MapTrace.tla", tcfg, wf, "full", what)
 
 
+def map_builtin_stage(rep, tcfg, what, prefix, T, nkeys, num, depth, mask=3):
+    """Walks executed with the production digester (pooled, CircleHash + BLAKE3) whose first-level digest is masked through the
+    verif hook: real first-level collisions with real deeper digests.  Digests are unknown to the model: content only."""
+    nm = "%s-builtin%d" % (prefix, T)
+    wf, wn = sim_histories(rep, "MC_MapWalk.tla", "MC_MapWalk.cfg",
+                           {"Keys": keyset(nkeys), "DigMode": '"spread"', "KSz": 5, "VSizes": "{12, 40}",
+                            "GrowUntil": depth // 3, "ShrinkFrom": depth - depth // 3},
+                           "MC_MapWalk T=%d %d keys, built-in digester with masked first level" % (T, nkeys), {"cfg": {"T": T, "limit": 255}}, nm, num, depth)
+    base = len(rep.distinct)
+    rep.distinct.update(range(base, base + wn))
+    hist_stage(rep, nm, ["map-run", "-builtinmask", str(mask)], "map", "MapTrace.tla", tcfg, wf, "full", what)
+
+
 def map_stages(rep, tcfg, what, prefix, collide=True):
     quick = rep.tier == "quick"
     ex = True
@@ -593,6 +606,7 @@ def map_stages(rep, tcfg, what, prefix, collide=True):
         walks += [(512, 60, "spread", 9, "{12, 100, 200}", 235, 100, 500), (1024, 60, "clustered", 9, "{12, 200, 400}", 491, 60, 500)]
     for (T, nkeys, mode, ksz, vs, maxel, num, depth) in walks:
         map_walk_stage(rep, tcfg, what, prefix, T, nkeys, mode, ksz, vs, maxel, num, depth)
+    map_builtin_stage(rep, tcfg, what, prefix, 256, 24, 12 if quick else 300, 120 if quick else 300)
     rep.exhaustive = ex and not quick
 
 
@@ -616,6 +630,8 @@ def check_C12(rep):
     ex = map_collide_stage(rep, "MapTrace_C12.cfg", what, "c12", 255, 3, (1, 16) if quick else None)
     for lim in (0, 1, 2):
         ex = map_collide_stage(rep, "MapTrace_C12.cfg", what, "c12", lim, 3, (1, 24) if quick else None) and ex
+    # long keys: the value budget next to a key (an over-budget value must be moved to its own slab, also in full-collision lists)
+    ex = map_collide_stage(rep, "MapTrace_C12.cfg", what, "c12", 255, 3, (1, 16) if quick else None, ksz=40, vsizes="{12, 80}") and ex
     map_walk_stage(rep, "MapTrace_C12.cfg", what, "c12", 256, 24, "clustered", 5, "{12, 40}", 107, 12 if quick else 300, 120 if quick else 300)
     map_walk_stage(rep, "MapTrace_C12.cfg", what, "c12l1", 256, 24, "clustered", 5, "{12, 40}", 107, 8 if quick else 200, 100 if quick else 300, limit=1)
     rep.exhaustive = ex
@@ -743,7 +759,12 @@ def multirun_replay(payload):
     for r in res:
         if "error" in r:
             raise Inconclusive(r["error"])
-    return any(not r["ok"] for r in res)
+    if any(not r["ok"] for r in res):
+        return True
+    if payload.get("_attempt", 0) < 4:
+        # differences caused by Go map iteration order or scheduling are probabilistic: try again a few times
+        return multirun_replay(dict(payload, _attempt=payload.get("_attempt", 0) + 1, seed=payload["seed"] + 1))
+    return False
 
 
 def walk_files(rep, prefix, kind, quick):
@@ -761,23 +782,25 @@ def walk_files(rep, prefix, kind, quick):
         # (shared / de-duplicated type information in the inlined-extra-data section)
         fam = []
         for parent in ("A", "M"):
-            for pattern in (["A", "A", "M", "M"], ["A", "M", "A", "M", "C", "C"], ["C", "A", "C", "A"], ["M", "M", "A", "A", "A"]):
+            for nmaps in (4, 6, 4, 6):      # map extra data is never de-duplicated: 2-3 distinct type infos, each used twice
                 h = [["root", 1, "A"]]
                 p, nxt, sid = 1, 2, 1
                 if parent == "M":
                     h.append(["n.appc", 1, nxt, "M", 0]); p = nxt; nxt += 1
-                for i, kd in enumerate(pattern):
+                kids = []
+                for i in range(nmaps):
                     if parent == "A":
-                        h.append(["n.appc", p, nxt, kd, i % 2])
+                        h.append(["n.appc", p, nxt, "M", i % 2])
                     else:
-                        h.append(["n.msetc", p, i + 1, 5, nxt, kd, i % 2])
-                    if kd == "A":
-                        h.append(["n.app", nxt, sid, 12, 0])
-                    else:
-                        h.append(["n.mset", nxt, 1, 5, sid, 12, 0, False, 0])
+                        h.append(["n.msetc", p, i + 1, 5, nxt, "M", i % 2])
+                    h.append(["n.mset", nxt, 1, 5, sid, 12, 0, False, 0])
+                    kids.append(nxt)
                     sid += 1
                     nxt += 1
-                h.append(["n.settype", p + 1 if parent == "A" else p, 45])
+                for i, kid in enumerate(kids):
+                    if i % (nmaps // 2) != 0 or True:
+                        h.append(["n.settype", kid, 44 + (i % (nmaps // 2))])
+                h.append(["n.app", 1, sid + len(fam), 12, 0])
                 fam.append(h)
         for i, h in enumerate(fam):
             with open(files[i % len(files)], "a") as f:
@@ -1278,6 +1301,21 @@ def check_C20(rep):
                "CheckStorageHealth disagrees with the Healthy predicate on a storage produced by a valid history", sigfn=sig, tkey="h")
 
 
+def deep_map_stage(rep, prefix, cfgname, what):
+    """Maps with three slab levels (>= ~150 keys at slab 256): grow silently, then record a tail with persistence events."""
+    quick = rep.tier == "quick"
+    depth, nkeys, num = (700, 400, 3) if quick else (900, 500, 40)
+    nm = prefix + "-deepmap"
+    wf, wn = sim_histories(rep, "MC_MapWalk.tla", "MC_MapWalk.cfg",
+                           {"Keys": keyset(nkeys), "DigMode": '"spread"', "KSz": 5, "VSizes": "{12, 40}", "Persist": "TRUE", "AllowPop": "FALSE",
+                            "GrowUntil": depth - 60, "ShrinkFrom": 1000000},
+                           "MC_MapWalk %d keys, growth then churn with persistence events (3 slab levels)" % nkeys,
+                           {"cfg": {"T": 256, "limit": 255}}, nm, num, depth, workers=4)
+    base = len(rep.distinct)
+    rep.distinct.update(range(base, base + wn))
+    hist_stage(rep, nm, ["map-run", "-tail", "70"], "map", "MapTrace.tla", "MapTrace_%s.cfg" % cfgname, wf, "tail", what)
+
+
 def check_C03(rep):
     rep.rule = ("(a) storage level: SlabStorage closure, every explored history replayed, commit / recreate / retrieve events strict, "
                 "BaseOnlyInCommit + TempNeverWritten + CommitOK + DropReverts; (b) container level: TLC-explored array histories with "
@@ -1293,6 +1331,7 @@ def check_C03(rep):
     rep.distinct.update(range(n))
     storage_stage(rep, "c03-storage-edges", "SlabStorageTrace_C03.cfg", files, "edge")
     persist_stages(rep, "c03", "C03", "ledger does not hold the last committed state")
+    deep_map_stage(rep, "c03", "C03", "ledger does not hold the last committed state (3-level map)")
 
 
 def check_C07(rep):
